@@ -51,6 +51,7 @@ HeadReachable(s) ==
 \* For a coded (gzip/deflate) body the decoder is opaque; what matters is whether the compressed
 \* stream itself arrived whole and undamaged (codedEnd = wire offset just after its last octet).
 CodedCut(s) == \/ s.faultKind = "bad"
+               \/ (s.framing = "length" /\ s.frameEnd < s.codedEnd)   \* the declared length cuts the coded stream short
                \/ s.wireLen < s.codedEnd
                \/ s.faultKind = "err" /\ s.faultAt < s.codedEnd
 Incomplete(s) == IF s.coding = "identity" THEN Defective(s) ELSE CodedCut(s)
